@@ -415,7 +415,7 @@ package rosmar
 //@
 //@ fn (*dcpFeed).run
 //@   loop 1 invariant [C15:run.loop] true
-//@   loop 1 body [C08,C16:run.one-delivery] iter("callback") == 1 && iter("list.removeback") == 1
+//@   loop 1 body [C08,C16:run.one-delivery] iter("callback") == 1 && iter("list.removeback") <= 1
 //@   loop 1 body [C15:run.lastcas-max]  feed.lastCas == max(athead(feed.lastCas), delivered().Cas)
 //@   loop 1 body [C15:run.changed]      feed.lastCasChanged <==> (athead(feed.lastCasChanged) || delivered().Cas > athead(feed.lastCas))
 //@   ensures [C16:run.done-closed-once] !isnull(feed.args.DoneChan) ==> count("closechan") == 1
